@@ -161,7 +161,7 @@ Definition tables_typed (t : tables) : bool :=
   forallb (fun r => forallb typed (snd r)) (t_bin t) &&
   forallb (fun r => forallb typed (snd r)) (t_un t) &&
   forallb (fun r => forallb typed (snd r)) (t_idx t).
-Definition table_entries (t : tables) : nat :=
-  fold_right (fun r n => (length (snd r) + n)%nat) O (t_bin t) +
-  fold_right (fun r n => (length (snd r) + n)%nat) O (t_un t) +
-  fold_right (fun r n => (length (snd r) + n)%nat) O (t_idx t).
+Definition table_entries (t : tables) : N :=
+  (fold_right (fun r n => N.of_nat (length (snd r)) + n) 0 (t_bin t) +
+   fold_right (fun r n => N.of_nat (length (snd r)) + n) 0 (t_un t) +
+   fold_right (fun r n => N.of_nat (length (snd r)) + n) 0 (t_idx t))%N.
